@@ -206,16 +206,6 @@ func randomLens(rng *rand.Rand, toks []Tok) (lit, dist []uint8, desc string) {
 	return lit, dist, desc + "/" + dd
 }
 
-// lastUsed is the smallest count of codes (>= floor) that covers all used symbols.
-func lastUsed(l []uint8, floor int) int {
-	for i, v := range l {
-		if v > 0 {
-			floor = max(floor, i+1)
-		}
-	}
-	return floor
-}
-
 type stream struct {
 	data, want []byte
 	types      []int // expected block types
@@ -258,7 +248,7 @@ func randomStream(rng *rand.Rand) stream {
 			lit, dist, d := randomLens(rng, toks)
 			opt := DynOptions{UseRepeat: rng.Intn(3) > 0, CrossBoundary: rng.Intn(2) == 0, FullHCLEN: rng.Intn(3) == 0}
 			if rng.Intn(3) == 0 {
-				nl, nd := lastUsed(lit, 257), lastUsed(dist, 1)
+				nl, nd := max(257, lastUsed(lit)), max(1, lastUsed(dist))
 				opt.HLit, opt.HDist = nl+rng.Intn(287-nl), nd+rng.Intn(31-nd)
 			}
 			if err := Dynamic(&w, final, lit, dist, toks, opt); err != nil {
